@@ -233,9 +233,18 @@ package q
 //@   requires writer: f != nil && !isnil(f.Writer)
 //@   assigns E.byte, E.string, alloc
 //@   trustframe
+// GEDCOM text is asked of ONE value that is there: never of a missing value and
+// never of a list as a whole (a list is written element by element, so that a
+// missing element is skipped - gedcom.IndividualNodes is itself a stringer, and
+// its GEDCOMString dereferences every element).
 //@ func GEDCOMFormatter.Write
 //@   props C15
 //@   safety
+//@   ghost kind int = 0 - 1
+//@   ghost nNil int = 0
+//@   oncall gedcom.IsNil do nNil = nNil + 1
+//@   oncall reflect.Value.Kind do kind = result
+//@   oncall gedcom.GEDCOMStringer.GEDCOMString check one-value-that-is-there: nNil == 1 && kind >= 0 && kind != 23
 //@   requires writer: f != nil && !isnil(f.Writer)
 //@   assigns E.byte, E.string, alloc
 //@   trustframe
@@ -405,6 +414,12 @@ package q
 // abstract test and the clause below says it is consulted for both values)
 //@   ghost nNaN int = 0
 //@   oncall math.IsNaN do nNaN = nNaN + 1
+// (whether a text is a number is strconv.ParseFloat's answer, for every text:
+// both operands are always handed to it - 'not asked' must not pass for 'not a
+// number': '.5', '+5', 'Inf' are numbers)
+//@   ghost nParse int = 0
+//@   oncall strconv.ParseFloat do nParse = nParse + 1
+//@   ensures always-asked: nParse == 2
 //@   ensures never-nan: implies(result2, !nanL && !nanR && nNaN == 2)
 //@   ensures both-numbers: result2 == (okL && okR && !nanL && !nanR)
 //@   ensures values: implies(result2, result0 == vL && result1 == vR)
